@@ -851,6 +851,124 @@ func normaliseOnce(pkgs map[string]*packages.Package) int {
 				}
 				return true
 			}, nil)
+			// (x) a counter that is only ever incremented and only ever compared with zero is a flag:
+			// `n := 0; … n++ …; if n > 0 {…}` is `ok := true; … ok = false …; if !ok {…}`
+			for _, decl := range f.Decls {
+				fd, ok := decl.(*ast.FuncDecl)
+				if !ok || fd.Body == nil {
+					continue
+				}
+				type counter struct {
+					def   *ast.AssignStmt
+					incs  []ast.Stmt
+					tests map[*ast.BinaryExpr]bool // → the counter is zero when the test holds
+					bad   bool
+					seen  int
+				}
+				cs := map[types.Object]*counter{}
+				ast.Inspect(fd.Body, func(m ast.Node) bool {
+					if as, ok := m.(*ast.AssignStmt); ok && as.Tok == token.DEFINE && len(as.Lhs) == 1 && len(as.Rhs) == 1 {
+						if id, ok := as.Lhs[0].(*ast.Ident); ok && info.Defs[id] != nil {
+							if lit, ok := as.Rhs[0].(*ast.BasicLit); ok && lit.Kind == token.INT && lit.Value == "0" {
+								if b, ok := info.Defs[id].Type().Underlying().(*types.Basic); ok && b.Info()&types.IsInteger != 0 {
+									cs[info.Defs[id]] = &counter{def: as, tests: map[*ast.BinaryExpr]bool{}}
+								}
+							}
+						}
+					}
+					return true
+				})
+				if len(cs) == 0 {
+					continue
+				}
+				isCtr := func(e ast.Expr) *counter {
+					if id, ok := e.(*ast.Ident); ok {
+						return cs[info.Uses[id]]
+					}
+					return nil
+				}
+				ast.Inspect(fd.Body, func(m ast.Node) bool {
+					switch x := m.(type) {
+					case *ast.IncDecStmt:
+						if k := isCtr(x.X); k != nil {
+							if x.Tok == token.INC {
+								k.incs = append(k.incs, x)
+								k.seen++
+							} else {
+								k.bad = true
+							}
+							return false
+						}
+					case *ast.AssignStmt:
+						if len(x.Lhs) == 1 {
+							if k := isCtr(x.Lhs[0]); k != nil {
+								if tv, ok := info.Types[x.Rhs[0]]; x.Tok == token.ADD_ASSIGN && ok && tv.Value != nil && constant.Sign(tv.Value) > 0 {
+									k.incs = append(k.incs, x)
+									k.seen++
+								} else {
+									k.bad = true
+								}
+								return false
+							}
+						}
+					case *ast.BinaryExpr:
+						k, other, op := isCtr(x.X), x.Y, x.Op
+						if k == nil {
+							if k = isCtr(x.Y); k != nil {
+								other, op = x.X, mirror[x.Op]
+							}
+						}
+						if k == nil {
+							return true
+						}
+						lit, ok := other.(*ast.BasicLit)
+						if !ok || lit.Kind != token.INT {
+							k.bad = true
+							return false
+						}
+						switch {
+						case lit.Value == "0" && (op == token.GTR || op == token.NEQ), lit.Value == "1" && op == token.GEQ:
+							k.tests[x] = false
+						case lit.Value == "0" && (op == token.EQL || op == token.LEQ), lit.Value == "1" && op == token.LSS:
+							k.tests[x] = true
+						default:
+							k.bad = true
+						}
+						k.seen++
+						return false
+					}
+					return true
+				})
+				for obj, k := range cs {
+					if k.bad || len(k.incs) == 0 || len(k.tests) == 0 || k.seen != useCount[obj] {
+						continue
+					}
+					name := k.def.Lhs[0].(*ast.Ident).Name
+					k.def.Rhs[0] = &ast.Ident{NamePos: k.def.Rhs[0].Pos(), Name: "true"}
+					astutil.Apply(fd.Body, func(c *astutil.Cursor) bool {
+						switch x := c.Node().(type) {
+						case *ast.IncDecStmt, *ast.AssignStmt:
+							for _, inc := range k.incs {
+								if inc == x.(ast.Stmt) {
+									c.Replace(&ast.AssignStmt{Lhs: []ast.Expr{&ast.Ident{NamePos: x.Pos(), Name: name}}, TokPos: x.Pos(), Tok: token.ASSIGN, Rhs: []ast.Expr{&ast.Ident{NamePos: x.Pos(), Name: "false"}}})
+									return false
+								}
+							}
+						case *ast.BinaryExpr:
+							if zero, ok := k.tests[x]; ok {
+								var e ast.Expr = &ast.Ident{NamePos: x.Pos(), Name: name}
+								if !zero {
+									e = &ast.UnaryExpr{OpPos: x.Pos(), Op: token.NOT, X: e}
+								}
+								c.Replace(e)
+								return false
+							}
+						}
+						return true
+					}, nil)
+					n++
+				}
+			}
 			// (c0) `if c := cond; c {…}` with c used nowhere else is `if cond {…}`
 			ast.Inspect(f, func(nd ast.Node) bool {
 				is, ok := nd.(*ast.IfStmt)
